@@ -128,6 +128,95 @@ def rule_R3(ctx, prj, rid="R3"):
         ctx.viol(rid, "scan_file/length", fi.site(c), f"the reported length is {unparse(ln)[:60]}; required count_lines({sv}, code tokens)")
 
 
+def rule_R4(ctx, prj):
+    ctx.rule("R4", "block discovery boundary conditions (each a necessary condition on canonical programs): a brace block's "
+                   "range ends one past its closing brace; balanced matching pushes on the opening and pops on the closing "
+                   "symbol and pairs (popped index, current index); a Python suite consists of the following lines whose first "
+                   "token is indented strictly deeper than the header's first token, and its range ends one past its last "
+                   "token (each violating form was confirmed against the real code to mis-measure a canonical program)", floor=6)
+    gb = prj.func(f"{SCU}:get_blocks")
+    ctors = [c for c in gb.calls() if attr_chain(c.func) == "TokenRange" and len(c.args) == 2]
+    if ctors:
+        a, b = unparse(ctors[0].args[0]), unparse(ctors[0].args[1]).replace(" ", "")
+        if b.endswith("[1]+1") and a.endswith("[0]"):
+            ctx.ok("R4", gb.site(ctors[0]), f"get_blocks: TokenRange({a}, {unparse(ctors[0].args[1])}) - exclusive end one past the closing symbol")
+        elif b.endswith("[1]") or b.endswith("[1]+2") or b.endswith("[1]-1"):
+            ctx.viol("R4", "get_blocks/exclusive-end", gb.site(ctors[0]), f"a block's range is TokenRange({a}, {unparse(ctors[0].args[1])}); required (open index, close index + 1): "
+                     f"the closing brace {'falls outside the block (span ends one token early)' if not b.endswith('+2') else 'is followed by a foreign token inside the block'}")
+        else:
+            ctx.info(f"get_blocks: range construction {unparse(ctors[0])} not judged")
+    else:
+        ctx.info("get_blocks: no TokenRange construction recognised (not judged)")
+    bal = prj.func("codelimit.common.token_utils:get_balanced_symbol_token_indices")
+    ps = bal.params()
+    start_p, end_p = ps[1], ps[2]
+    ifs = [n for n in bal.walk() if isinstance(n, ast.If) and "is_symbol(" in unparse(n.test)]
+    judged = False
+    for n in ifs:
+        t = unparse(n.test)
+        body = " ".join(unparse(x) for x in n.body)
+        if f"is_symbol({start_p})" in t:
+            judged = True
+            if ".append(" in body and ".pop(" not in body:
+                ctx.ok("R4", bal.site(n), f"balanced matching: opening symbol pushes its index")
+            else:
+                ctx.viol("R4", "get_balanced_symbol_token_indices/open", bal.site(n), f"on the opening symbol the code does `{body[:60]}`; required: push the index")
+        elif f"is_symbol({end_p})" in t:
+            judged = True
+            if ".pop(" in body:
+                # the recorded pair
+                tups = [x for x in ast.walk(n) if isinstance(x, ast.Tuple) and len(x.elts) == 2 and isinstance(x.ctx, ast.Load)]
+                loopidx = None
+                for lp in [l for l in bal.walk() if isinstance(l, ast.For)]:
+                    if isinstance(lp.target, ast.Tuple):
+                        loopidx = unparse(lp.target.elts[0])
+                good = any(unparse(tp.elts[1]) == loopidx and unparse(tp.elts[0]) != loopidx for tp in tups)
+                if good:
+                    ctx.ok("R4", bal.site(n), "balanced matching: closing symbol pops and records (opening index, closing index)")
+                else:
+                    ctx.viol("R4", "get_balanced_symbol_token_indices/pair", bal.site(n), f"the recorded pair is {[unparse(tp) for tp in tups][:2]}; required (popped opening index, current index)")
+            else:
+                ctx.viol("R4", "get_balanced_symbol_token_indices/close", bal.site(n), f"on the closing symbol the code does `{body[:60]}`; required: pop the matching opening index")
+    if not judged:
+        ctx.info("get_balanced_symbol_token_indices: shape not recognised (not judged)")
+    # nested extraction flag: result appended when extract_nested or the stack is empty
+    conds = [n for n in bal.walk() if isinstance(n, ast.If) and "extract_nested" in unparse(n.test)]
+    for n in conds:
+        t = unparse(n.test).replace(" ", "")
+        if t in (f"extract_nestedorlen(block_starts)==0", "extract_nestedornotblock_starts"):
+            ctx.ok("R4", bal.site(n), "balanced matching: inner pairs recorded iff extract_nested, outermost always")
+        else:
+            ctx.viol("R4", "get_balanced_symbol_token_indices/nesting-flag", bal.site(n), f"a pair is recorded when `{unparse(n.test)}`; required `extract_nested or <stack empty>`")
+    # Python suites
+    py = prj.maybe_func("codelimit.languages.Python:Python.extract_blocks")
+    if py is not None:
+        for cmpn in [c for c in py.walk() if isinstance(c, ast.Compare) and len(c.ops) == 1]:
+            l, r = unparse(cmpn.left), unparse(cmpn.comparators[0])
+            op = type(cmpn.ops[0])
+            if {l, r} == {"line_indentation", "header_indentation"}:
+                strict_deeper = (l == "line_indentation" and op is ast.Gt) or (l == "header_indentation" and op is ast.Lt)
+                if strict_deeper:
+                    ctx.ok("R4", py.site(cmpn), "Python suites: a line belongs to the body iff its indentation is strictly deeper than the header's")
+                elif op in (ast.GtE, ast.LtE):
+                    ctx.viol("R4", "Python.extract_blocks/indentation", py.site(cmpn), f"`{unparse(cmpn)}`: a line at the SAME indentation as the header (the next sibling "
+                             f"function, or code after the function) is swallowed into the body")
+                else:
+                    ctx.viol("R4", "Python.extract_blocks/indentation", py.site(cmpn), f"`{unparse(cmpn)}` does not select the lines indented deeper than the header")
+            if {l, r} == {"line_nr", "header_line_nr"}:
+                stop = (l == "line_nr" and op is ast.LtE) or (l == "header_line_nr" and op is ast.GtE)
+                if stop:
+                    ctx.ok("R4", py.site(cmpn), "Python suites: the scan stops at the header's own line (line_nr <= header_line_nr)")
+                elif (l == "line_nr" and op is ast.Lt) or (l == "header_line_nr" and op is ast.Gt):
+                    ctx.viol("R4", "Python.extract_blocks/header-line", py.site(cmpn), f"`{unparse(cmpn)}`: the header's own line is examined as a candidate body line; it is not indented deeper than itself, which resets the suite collected so far - the function loses its body and is not reported")
+        ends = [n for n in py.walk() if isinstance(n, ast.Assign) and unparse(n.targets[0]) == "end"]
+        for n in ends:
+            t = unparse(n.value).replace(" ", "")
+            if t.endswith("[-1])+1"):
+                ctx.ok("R4", py.site(n), "Python suites: range ends one past the suite's last token")
+            elif t.endswith("[-1])"):
+                ctx.viol("R4", "Python.extract_blocks/exclusive-end", py.site(n), f"end = {unparse(n.value)}: the suite's last token falls outside the (exclusive) range")
+
+
 def run(ctx, prj: Project):
     ctx.explanation = (
         "Three structural necessary conditions of the span and length clauses: (R1) every consumer of scope indices works "
@@ -143,3 +232,4 @@ def run(ctx, prj: Project):
     c04.rule_R1(ctx, prj, rid="R1")
     rule_R2(ctx, prj)
     rule_R3(ctx, prj)
+    rule_R4(ctx, prj)
